@@ -468,7 +468,7 @@ func TestC14(t *testing.T) {
 	curProp = "C14"
 	r := vf.NewRec("C14")
 	defer r.Finish(t)
-	guard.StartWatchdog(*vf.Out, "C14")
+	guard.StartWatchdog(*vf.Out, vf.Label("C14"))
 
 	for _, rf := range r.LoadReplays(t) {
 		var c caseC14
